@@ -40,6 +40,7 @@ type Pub struct {
 	Cancelled bool   `json:"cancelled,omitempty"`
 	Expired   bool   `json:"expired,omitempty"` // published with a context whose deadline has already passed
 	UseCtx    bool   `json:"usectx,omitempty"`
+	Any       bool   `json:"any,omitempty"` // published through the static type any (Publish[any])
 	Persist   string `json:"persist"` // ok reject bad (unencodable event) slow (the append takes 3 ms and succeeds)
 }
 
@@ -194,9 +195,14 @@ func workload(c *Case, obs eventbus.Observability, ctxCheck func(ctx context.Con
 				eventbus.PublishContext(bus, ctx, BadEv{ID: id, C: make(chan int)})
 			}
 		} else {
-			if ctx == nil {
+			switch {
+			case p.Any && ctx == nil:
+				eventbus.Publish[any](bus, Ev{ID: id})
+			case p.Any:
+				eventbus.PublishContext[any](bus, ctx, Ev{ID: id})
+			case ctx == nil:
 				eventbus.Publish(bus, Ev{ID: id})
-			} else {
+			default:
 				eventbus.PublishContext(bus, ctx, Ev{ID: id})
 			}
 		}
